@@ -279,7 +279,8 @@ func (node *FamilyNode) childrenBornBeforeParentsWarnings() (warnings Warnings) 
 		}
 	}
 
-	return
+	// A child that is listed twice is still one child.
+	return warnings.oncePerPair()
 }
 
 func (node *FamilyNode) siblingsBornTooCloseWarnings() (warnings Warnings) {
